@@ -24,5 +24,15 @@ pub fn subpattern_of(p: &Pattern, component: &Vec<PatternPiece>) -> (r: Pattern)
 pub fn list_matching(log: &mut WalkLog, current_path: &PathBuf, subpattern: &Pattern, allow_dot_files: bool) -> (r: Result<Vec<PathBuf>, error::Error>)
     ensures final(log).listings() == old(log).listings().push(Listing { comp: subpattern.pieces@, allow: allow_dot_files })
 { unimplemented!() }
-#[verifier::external_body] pub fn sort_paths(v: &mut Vec<PathBuf>) { unimplemented!() }
-#[verifier::external_body] pub fn append_paths(dst: &mut Vec<PathBuf>, src: &mut Vec<PathBuf>) { unimplemented!() }
+// bash sorts the names a pattern matches; here every directory's matches are sorted as a whole (Vec::sort: the full paths, ascending) and
+// then put behind those of the directories before it — which are in order themselves — so only a sorted listing may be appended, and
+// nothing may reorder the accumulated list afterwards
+pub uninterp spec fn sorted_paths(v: Seq<PathBuf>) -> bool;
+#[verifier::external_body] pub fn sort_paths(v: &mut Vec<PathBuf>) ensures sorted_paths(final(v)@) { unimplemented!() }                                   // Vec::sort
+#[verifier::external_body] pub fn append_paths(dst: &mut Vec<PathBuf>, src: &mut Vec<PathBuf>)
+    requires
+        //@ patterns.rs:append_paths:requires#0 | C08,C05 the-matches-of-a-directory-are-sorted-before-they-join-the-result
+        sorted_paths(old(src)@),
+    ensures final(dst)@ == old(dst)@ + old(src)@ { unimplemented!() }                                                                                      // Vec::append
+// R14: `v.sort_by(closure)` / `sort_by_key` / `sort_unstable..` with an ordering this unit does not read: some reordering of v
+#[verifier::external_body] pub fn reorder_paths_somehow(v: &mut Vec<PathBuf>) ensures final(v)@.len() == old(v)@.len() { unimplemented!() }
